@@ -65,6 +65,23 @@ def case_elements(ctx, rng):
         L = rng.randint(0, 6)
         t = tuple((m, rng.random() < 0.5) for m in rng.choices(allmodes, k=L))
         terms.append((rng.choice([1.0, -1.0, 0.5, 2.0, -0.25, 0.0]), t))
+    if rng.random() < 0.3 and terms:
+        # contributions to one element that cancel exactly (then possibly revive): the same
+        # operator string again with the opposite coefficient, anticommutator-style pairs
+        c0_, t0_ = rng.choice(terms)
+        extra_ = [(-c0_, t0_)]
+        if rng.random() < 0.5:
+            extra_.append((rng.choice([1.0, 0.5, -2.0]), t0_))
+        if len(t0_) >= 2 and rng.random() < 0.5:
+            # swapping two adjacent different operators flips the sign: c*AB + c*BA-type pairs
+            k_ = rng.randrange(len(t0_) - 1)
+            if t0_[k_] != t0_[k_ + 1] and t0_[k_][0] != t0_[k_ + 1][0]:
+                sw = list(t0_)
+                sw[k_], sw[k_ + 1] = sw[k_ + 1], sw[k_]
+                extra_.append((c0_, tuple(sw)))
+        for e_ in extra_:
+            terms.insert(rng.randint(0, len(terms)), e_)
+        ctx.count("feature", "cancelling-terms")
     lib_terms = [(c, to_lib_term(sr, rng, t)) for c, t in terms]
     lib_bases = [[to_lib_term(sr, rng, st) for st in b] for b in bases]
     wit = {"terms": repr(terms), "bases": repr(bases)}
@@ -261,6 +278,11 @@ def case_models(ctx, rng):
     U = (rng.choice([8.0, 1.0, 0.0]), rng.choice([8.0, 3.0])) if rng.random() < 0.5 else rng.choice([8.0, 2.0])
     V = rng.choice([8.0, 0.0, 1.5])
     mu = (rng.choice([0.0, 0.5]), rng.choice([0.25, -1.0])) if rng.random() < 0.5 else rng.choice([0.0, 0.75])
+    if rng.random() < 0.25:
+        # half filling: mu = U / 2 makes on-site contributions cancel exactly
+        mu = tuple(u_ / 2 for u_ in U) if isinstance(U, tuple) else U / 2
+        if rng.random() < 0.5:
+            coord_hint = True
     coord = (rng.randint(1, 4), rng.randint(1, 4)) if rng.random() < 0.7 else None
     c0, c1 = coord or (1, 1)
     pair = lambda v: v if isinstance(v, tuple) else (v, v)
